@@ -79,7 +79,8 @@ def hset (h : Hdr) (k v : Str) : Hdr := hput h (canon k) [v]
 /-- `h.Add(k, v)` -/
 def hadd (h : Hdr) (k v : Str) : Hdr := hput h (canon k) ((hget h (canon k)).getD [] ++ [v])
 
-def hostKey : Str := str "Host"
+/-- "Host" -/
+def hostKey : Str := [72, 111, 115, 116]
 
 /-! ## util.DecodeHeader / DecodeHTTPConfigHeaders -/
 
@@ -140,6 +141,16 @@ structure Req where
   body : Str
   deriving DecidableEq, Repr
 
+/-- "GET" -/
+def GET : Str := [71, 69, 84]
+/-- "POST" -/
+def POST : Str := [80, 79, 83, 84]
+
+/-- "http://" -/
+def httpPfx : Str := [104, 116, 116, 112, 58, 47, 47]
+/-- "https://" -/
+def httpsPfx : Str := [104, 116, 116, 112, 115, 58, 47, 47]
+
 def stripPrefix? : Str → Str → Option Str
   | [], s => some s
   | _ :: _, [] => none
@@ -151,9 +162,9 @@ def isAuthEnd (c : Nat) : Bool := c == 47 || c == 63 || c == 35
 /-- (URL.Host, URL.RequestURI()) of net/url.Parse for the grammar of the tie:
 `[http://authority | https://authority] [/path] [?query]`, no fragment, no userinfo, valid escapes. -/
 def splitURL (u : Str) : Str × Str :=
-  let rest? := match stripPrefix? (str "http://") u with
+  let rest? := match stripPrefix? httpPfx u with
     | some r => some r
-    | none => stripPrefix? (str "https://") u
+    | none => stripPrefix? httpsPfx u
   match rest? with
   | none => ([], if u = [] then [47] else u)
   | some r =>
@@ -166,7 +177,7 @@ def splitURL (u : Str) : Str × Str :=
 
 /-- http.NewRequest(method, url, body): empty header, Host from the URL -/
 def newRequest (method url body : Str) : Req :=
-  { method := if method = [] then str "GET" else method
+  { method := if method = [] then GET else method
     uri := (splitURL url).2, host := (splitURL url).1, header := [], body := body }
 
 /-- util.EnrichRequestWithHeaders. `none` = the Go code panics (`values[0]` of an empty slice). -/
@@ -234,13 +245,11 @@ structure Entry where
   body : Str
   deriving DecidableEq, Repr
 
-def GET : Str := str "GET"
-def POST : Str := str "POST"
 
 /-- the URL handed to `Ammo.Setup` / the request target -/
 def urlOf (f : Format) (e : Entry) : Str :=
   match f with
-  | .jsonline | .jsonarr => str "http://" ++ e.host ++ e.uri
+  | .jsonline | .jsonarr => httpPfx ++ e.host ++ e.uri
   | _ => e.uri
 
 def methodOf (f : Format) (e : Entry) : Str :=
@@ -262,7 +271,7 @@ def buildReq (f : Format) (conf : Hdr) (lines : List (Str × Str)) (e : Entry) :
   match f with
   | .uri => buildAmmo GET e.uri [] (mergeUri (commonOf [] lines) conf)
   | .uripost => buildAmmo POST e.uri e.body (mergeUri (commonOf [] lines) conf)
-  | .jsonline | .jsonarr => buildAmmo e.method (str "http://" ++ e.host ++ e.uri) e.body (mergeJson conf lines)
+  | .jsonline | .jsonarr => buildAmmo e.method (httpPfx ++ e.host ++ e.uri) e.body (mergeJson conf lines)
   | .raw => enrich (readRequest e.method e.uri lines e.body) conf
 
 /-! ## BaseGun.Shoot -/
@@ -356,7 +365,7 @@ def scanJson (conf : Hdr) : List Item → List Req × Status
   | [] => ([], .ok)
   | it :: rest =>
     if !validMethod it.ent.method then ([], .err)
-    else match buildAmmo it.ent.method (str "http://" ++ it.ent.host ++ it.ent.uri) it.ent.body
+    else match buildAmmo it.ent.method (httpPfx ++ it.ent.host ++ it.ent.uri) it.ent.body
         (mergeJson conf it.hdrs) with
       | none => ([], .panic)
       | some r => let (rs, st) := scanJson conf rest; (r :: rs, st)
@@ -409,7 +418,8 @@ def validValueByte (c : Nat) : Bool := (decide (32 ≤ c) && c != 127) || c == 9
 def sendable (s : Shot) : Bool :=
   s.header.all fun kv => (kv.1 != [] && kv.1.all isTokenByte) && kv.2.all fun v => v.all validValueByte
 
-def userAgentKey : Str := str "User-Agent"
+/-- "User-Agent" -/
+def userAgentKey : Str := [85, 115, 101, 114, 45, 65, 103, 101, 110, 116]
 
 /-- header fields as the server's handler sees them, transport-managed names left out -/
 def arrivedHeader (h : Hdr) : Hdr :=
